@@ -214,7 +214,11 @@ def rule_l1_lazy_reuse(prog: Program, col: Collector) -> None:
     col.note("single-use producers derived from the package: " + ", ".join(sorted(q.replace(P, "") for q in lazy)))
     total = 0
     nfun = 0
+    from .hygiene import scope_files
+    files = scope_files(prog, col.property_id)       # the property's anchor files and the files of what their functions call
     for ref in prog.all_functions():
+        if ref.module.rel() not in files:
+            continue
         ft = fterms(prog, ref)
         lazy_nodes = set()
         for e in ft.of_kind("assign"):
@@ -339,6 +343,12 @@ def rule_c11_worker(prog: Program, col: Collector) -> None:
     sk = [e for e in ft.calls("set_known_values") if e.recv == game]
     col.check(bool(aps) or bool(sk), ref.where(), ref.short, "worker resets the knowledge of its game to (starting knowledge + the set)", construct="worker-reset",
               necessity="the gap reported for a set must be that of the game in which exactly the starting knowledge plus that set is known")
+    guarded = [e for e in aps + sk if [f for f in e.ctx if f[0] in ("if", "for", "while", "try")]]
+    col.check(not guarded, ref.where(guarded[0].node if guarded else None), ref.short,
+              "the knowledge reset of the worker is unconditional (also for the empty set: the game copy then holds exactly the starting knowledge, with THIS task's values)",
+              construct="worker-reset-conditional",
+              necessity="the game copy a task receives carries whatever its caller or an earlier sample left in it (the expected-greedy search hands over the environment's own "
+                        "game and evaluates it against freshly sampled hidden games): skipping the reset for the empty set reports the caller's gap for every sample in row 0")
     for e in sk:
         vals = e.args[0] if e.args else ("unknown", "")
         own_reads = [s2 for s2 in subterms(vals) if s2[0] == "call" and s2[1][0] == "attr" and s2[1][1] == game and s2[1][2] in ("get_values", "get_value", "get_known_values")]
